@@ -290,7 +290,7 @@ def run_long(case, agg):
         if iv in seen:
             agg.viol("C14:iv-reuse", f"long history of identical plaintexts: IV {iv.hex()} of step {i} already used at step {seen[iv]}")
             return
-        if i % 50 == 0 and not check_step("aes", iv, content, prot, PT["A"]):
+        if not check_step("aes", iv, content, prot, PT["A"]):
             agg.viol("C14:published-iv-not-used", f"long history step {i}: does not decrypt with its published IV")
             return
         seen[iv] = i
@@ -313,6 +313,68 @@ def run_union(case, agg):
     else:
         agg.ok(h8("c14u", total), f"ok:union={total}", nontrivial=total > 0, sample={"interpreters_united": len(glob.glob(os.path.join(core.run_scratch(), 'c14-ivs-*.bin'))), "ivs": total})
 
+# -- processes forked from one that has already encrypted ("one process or many") -----------------------------------
+
+def fork_cases(tier):
+    return [{"before": b, "children": c, "each": 3, "entry": e} for b in (0, 1, 3) for c in ((2,) if tier == "quick" else (2, 4)) for e in ("lib", "main")]
+
+
+def run_fork(case, agg):
+    """a process that has encrypted `before` images forks (a build system's worker pool); every child and the parent
+    go on encrypting the same firmware with the same key: all published IVs of the family are pairwise distinct and
+    every ciphertext decrypts with its published IV (real entropy)"""
+    from suit_generator import cmd_encrypt
+    import pickle
+    obj = cmd_encrypt._import_encryptor(escripts()[0])
+    label = f"{case['before']} encryptions, then fork into {case['children']} children x {case['each']} encryptions ({case['entry']})"
+    with fresh_dir("c14k") as d:
+        res = []
+        try:
+            for i in range(case["before"]):
+                res.append(("parent-before", i) + one_step(obj, PT["A"], "aes", case["entry"], d, i))
+            pids = []
+            for c in range(case["children"]):
+                pid = os.fork()
+                if pid == 0:
+                    rc = 0
+                    try:
+                        cd = os.path.join(d, f"child{c}")
+                        os.makedirs(cd)
+                        mine = [(f"child{c}", i) + one_step(obj, PT["A"], "aes", case["entry"], cd, i) for i in range(case["each"])]
+                        with open(os.path.join(d, f"res{c}.pkl"), "wb") as fh:
+                            pickle.dump(mine, fh)
+                    except BaseException as ex:
+                        with open(os.path.join(d, f"err{c}.txt"), "w") as fh:
+                            fh.write(f"{type(ex).__name__}: {ex}")
+                        rc = 1
+                    finally:
+                        os._exit(rc)
+                pids.append(pid)
+            for i in range(case["each"]):
+                res.append(("parent-after", i) + one_step(obj, PT["A"], "aes", case["entry"], d, 100 + i))
+            for pid in pids:
+                os.waitpid(pid, 0)
+            for c in range(case["children"]):
+                f = os.path.join(d, f"res{c}.pkl")
+                if not os.path.exists(f):
+                    err = open(os.path.join(d, f"err{c}.txt")).read() if os.path.exists(os.path.join(d, f"err{c}.txt")) else "no result"
+                    agg.viol("C14:encrypt-failed/forked-child", f"{label}: child {c}: {err[:300]}")
+                    return
+                res += pickle.load(open(f, "rb"))
+        except Exception as ex:
+            agg.viol(f"C14:encrypt-failed/{type(ex).__name__}", f"{label}: {ex}")
+            return
+    seen = {}
+    for who, i, iv, content, prot in res:
+        if not check_step("aes", iv, content, prot, PT["A"]):
+            agg.viol("C14:published-iv-not-used", f"{label}: {who} step {i}: the ciphertext does not decrypt with the published IV {iv.hex()}")
+            return
+        if iv in seen:
+            agg.viol("C14:iv-reuse/across-processes", f"{label}: {who} step {i} published the IV {iv.hex()} that {seen[iv][0]} step {seen[iv][1]} published (same key)")
+            return
+        seen[iv] = (who, i)
+    agg.ok(h8("c14k", case), f"ok:forked:{case['entry']}", sample={**case, "distinct_ivs": len(seen)} if case["before"] == 1 else None)
+
 
 class _LongStage(CaseStage):
     replayable = False
@@ -332,6 +394,8 @@ def plan(tier):
         _FreshStage("fresh-interpreters", [{"n": 8 if q else 64}], run_fresh, serial=True, rule="N CLI subprocesses, same firmware and key"),
         _LongStage("long-history", [{"n": 1000 if q else 20000}], run_long, serial=True, rule="identical plaintexts in one interpreter"),
     ]
+    st.append(_LongStage("forked-processes", lambda: fork_cases(tier), run_fork, chunk=1,
+                         rule="{0,1,3} encryptions, then fork into 2 (thorough: 2, 4) children; children and parent encrypt 3 more each; library / main"))
     if not q:
         st.append(_LongStage("many-interpreters", [{"n": 6250, "dump": True, "part": i} for i in range(16)], run_long, chunk=1,
                              rule="16 worker interpreters x 6250 steps, IV sets dumped"))
